@@ -34,6 +34,9 @@ static std::string oracle(const Case& c) {
     else if (t < END) { cls = "in-range"; if (!(B <= t && t - B < S)) return "t=" + std::to_string(t) + ": birthday " + std::to_string(B) + " violates B <= t < B + 2629746"; }
     else { cls = "after-range"; if (B > t) return "birthday later than creation time"; }
     if (t >= E && t != UINT64_MAX && B > t) return "birthday " + std::to_string(B) + " is later than the creation time " + std::to_string(t);
+    // the clock moves on (or back, or breaks) after creation: the reported birthday belongs to the seed, not to the time of the query
+    if (c.has("later")) { k.clock = c.u("later"); ev.count(c.u("later") == UINT64_MAX ? "clock-later:error-value" : c.u("later") < E ? "clock-later:before-epoch" : c.u("later") < B ? "clock-later:in[epoch,B)" : c.u("later") <= t ? "clock-later:in[B,t]" : "clock-later:after-t");
+        uint64_t B1 = polyseed_get_birthday(s); if (B1 != B) return "birthday reported as " + std::to_string(B) + " at creation is reported as " + std::to_string(B1) + " once the clock reads " + std::to_string(c.u("later")); }
     // chain of transformations
     std::string chain = c.bytes("chain"); const lib::LangEntry* le = REG->by_name(c.get("lang")); unsigned coin = (unsigned)c.u("coin") & 2047u;
     for (unsigned char op : chain) {
@@ -61,6 +64,7 @@ static void run() {
     for (size_t i = 0; i < ts.size(); i++) {
         if ((int)(i % (size_t)a.nworkers) != a.worker) continue;
         Case c; c.set("t", ts[i]); c.set("secret", hex(std::string(19, (char)(i * 7)))); c.set("chain", hex(std::string("\x00\x01\x02\x01\x00\x02", 6))); c.set("lang", REG->at(i).name_en); c.set("coin", (uint64_t)(i % 2048)); c.set("defaultclock", (uint64_t)(W().args.variant == "rel" ? 1 : 0)); c.set("env", (uint64_t)(i % 8));
+        { const uint64_t E = model::EPOCH, S = model::STEP; uint64_t lt[6] = {E, ts[i] >= E + S ? ts[i] - S : E, 0, UINT64_MAX, E - 1, ts[i] + S}; if (i % 7) c.set("later", lt[i % 7 - 1]); }
         set_current(c); std::string m = oracle(c); done++; if (!m.empty() && enum_fail(c, m)) return;
     }
     ev.enumerated["clock values at every month boundary -1/0/+1 and special values"] += done;
@@ -69,6 +73,7 @@ static void run() {
             {2, rc::gen::map(rc::gen::pair(in_range<uint64_t>(0, 1026), in_range<int>(-2, 3)), [](std::pair<uint64_t, int> p) -> uint64_t { return model::EPOCH + p.first * model::STEP + (uint64_t)(int64_t)p.second; })},
             {1, rc::gen::map(vf::u64(), [](uint64_t x) -> uint64_t { return x % model::EPOCH; })}, {1, rc::gen::map(vf::u64(), [](uint64_t x) -> uint64_t { return model::EPOCH + 1024 * model::STEP + x % (1ull << 40); })}, {1, rc::gen::element<uint64_t>(UINT64_MAX, UINT64_MAX - 1, 0, model::EPOCH, model::EPOCH - 1)}});
         Case c; c.set("t", t); c.set("secret", hex(*g::secret19())); c.set("ufeat", *in_range<unsigned>(0, 8)); c.set("chain", hex(*rc::gen::resize(10, rc::gen::container<std::vector<uint8_t>>(rc::gen::resize(100, rc::gen::inRange<uint8_t>(0, 4)))))); c.set("lang", REG->at(*g::lang_index()).name_en); c.set("coin", (uint64_t)*g::coin()); if (*in_range<int>(0, 8) == 0) c.set("flaky", *in_range<unsigned>(1, 4)); else if (W().args.variant == "rel" && *in_range<int>(0, 2)) c.set("defaultclock", 1);
+        if (*in_range<int>(0, 3)) { uint64_t x = *vf::u64(); int kind = *in_range<int>(0, 6); c.set("later", kind == 0 ? (t >= model::EPOCH && t != UINT64_MAX ? model::EPOCH + x % (t - model::EPOCH + 1) : model::EPOCH) : kind == 1 ? x : kind == 2 ? model::EPOCH - 1 - x % 1000 : kind == 3 ? UINT64_MAX : kind == 4 ? model::EPOCH + x % (1024 * model::STEP) : (uint64_t)0); }
         c.set("env", *in_range<unsigned>(0, 8)); set_current(c); std::string m = oracle(c); if (!m.empty()) VF_FAIL(c, m);
     });
 }
